@@ -7,18 +7,30 @@ props = [json.loads(l) for l in open(os.path.join(ROOT, "properties.jsonl"))]
 TECH = "explicit TLA+ specification checked with TLC; TLC-generated behaviours replayed into the real code; recorded traces validated by TLC against the same specification"
 
 CLAIMED = {
+ "C02": dict(
+   text="Conn.tla states C02 over network events (every datagram with its coalesced packets and fate, every delivered copy), the packet logs of both endpoints (packet_sent / packet_received with type and number) and application events (writes, reads with content check, end of stream, completion); MC_Conn.tla, the design (numbered packets, retransmission as new numbers, a network that drops / duplicates / reorders / damages datagrams, a receiver that accepts a packet iff it arrived unmodified and is new), is model-checked: tampered and replayed packets are never accepted, only sent data is delivered, the monitor raises no alarm on the design, and with bounded faults everything is delivered. Fault schedules enumerated by TLC (Gen_Conn: every assignment of deliver/drop/duplicate/delay/bit-flip/truncate to the first K datagrams of each direction with at most 2 faults) plus seeded random bounded and unbounded profiles are run against the real client+server stack over an in-memory network under virtual time, and every recorded event is judged by TLC against Conn.tla: packets logged as received must have arrived intact and only once, bytes read must have been written by the peer, nothing panics, under bounded faults the transfer completes, under unbounded ones both applications are told within 3 idle periods.",
+   note="TLC, JSON trace I/O, qevent telemetry feature; TLS is opaque and AEAD is trusted; packets are identified on the wire by FIFO order per type against the sender's packet_sent log, cross-checked by length.",
+   ref="DESIGN.md Part II C02"),
+ "C17": dict(
+   text="ConnLife.tla states C17 over the connection-state log of both endpoints, the application's close calls, the completion time of every application task, write calls after closing, packets emitted after closing and idle expiry; MC_ConnLife.tla (two endpoints, abstract clock, parked operations, close / lost close / idle expiry) is model-checked: states only move forward, the error is fixed once, nothing stays pending after leaving the open states, the monitor accepts the design, and every pending operation of both sides eventually fails once one side closed. Scenarios enumerated by TLC (Gen_ConnLife: who closes incl. both racing, 7 close points from before the handshake to mid-transfer, parked opens / writes / reads / accepts, CONNECTION_CLOSE lost or not, 4 idle-timeout configurations) run on the real stack under virtual time and every recorded event is judged by TLC.",
+   note="TLC, JSON trace I/O; 'promptly' = 1 virtual second on the closing endpoint, negotiated idle timeout + 3 s on its peer; protocol-error closes are not forged at packet level.",
+   ref="DESIGN.md Part II C17"),
+ "C20": dict(
+   text="Qlog.tla treats the qlog stream as a trace language (mandatory fields, quic vocabulary, JSON round trip of every event, connection states forward, packet numbers of packet_sent increasing per space, acknowledged / lost packets were sent, stream states follow the RFC 9000 machines) plus the observational clause (the same seeded workload under exporters none / no-op / capturing / filtered / raw must be indistinguishable to the application); MC_Qlog checks that the monitor accepts every stream of a correct producer. Gen_Qlog enumerates exporter x workload x fault x close configurations; each runs on the real stack with a capturing exporter that serialises, parses and re-serialises every event; TLC judges every event and compares the application summaries within each group.",
+   note="TLC, JSON trace I/O; round trip judged on JSON values (untagged enum variants that serialise identically are not held against the code).",
+   ref="DESIGN.md Part II C20"),
  "C01": dict(
    text="Stream.tla states the contract of C01 over the events observable at two endpoints (application calls and results, STREAM frames emitted with offset/length/FIN, deliveries and their results, reads) and MC_Stream.tla, the design (per-byte colour map, FIN state, lossy/duplicating/reordering frame network, reassembly, reader), is model-checked against it: safety in every reachable state, the monitor accepts every behaviour of the design, and under fair scheduling with finitely many losses everything written and the end of stream are read. Environment schedules enumerated by TLC (Gen_Stream, all paths to a fixed depth for four flow kinds and blocking windows) plus seeded random long schedules (0-RTT, hostile injected frames, resets, stop-sending, all six flow-control parameters on both sides) are executed on two real DataStreams endpoints with real FlowController/Parameters; every recorded event is judged by TLC against Stream.tla and every run ends with a fair finish after which all written bytes must have been read, flushed and the end of stream reported.",
    note="TLC, JSON trace I/O; payload bytes are compared by the harness against position-determined content (data_ok); frames, not packets, are the unit of loss here (the full stack is C02).",
-   ref="DESIGN.md §4 C01"),
+   ref="DESIGN.md Part II C01/C11/C12"),
  "C11": dict(
    text="Stream.tla carries the flow-control contract (per-kind initial windows written once from RFC 9000 18.2, connection credit charged exactly once per fresh byte, credit returned, advertised limits monotone, data beyond a limit answered with FLOW_CONTROL_ERROR); MC_Stream checks the monitor against the design; TLC-enumerated and seeded random schedules (all combinations of the six parameters incl. zero and unequal uni/bidi values, both roles, 0-RTT with remembered parameters accepted/rejected, MAX_DATA / MAX_STREAM_DATA updates, hostile frames beyond limits) are executed on two real DataStreams + FlowController + Parameters and every recorded frame / credit value / delivery result is judged by TLC.",
    note="TLC, JSON trace I/O. Connection credit is observed through ArcSendControler::credit after every packet assembly.",
-   ref="DESIGN.md §4 C11"),
+   ref="DESIGN.md Part II C01/C11/C12"),
  "C12": dict(
    text="Stream.tla carries the stream-count / direction / final-size contract (consecutive local ids never beyond the peer's limit, implicit opening offers each lower stream exactly once in order, STREAM_LIMIT / STREAM_STATE / FINAL_SIZE errors for peer misuse, advertised MAX_STREAMS monotone); schedules enumerated by TLC and seeded random schedules with hostile frames (arbitrary stream ids, offsets, lengths, FIN bits, RESET_STREAM, STOP_SENDING, MAX_STREAM_DATA) are executed on two real DataStreams endpoints for both roles and all stream-count parameters incl. 0, and every recorded result is judged by TLC. Two recorded findings (stream-limit off-by-one asserted by a unit test; data sent beyond a limit revised by a rejected 0-RTT) are reported as KNOWN-FINDING.",
    note="TLC, JSON trace I/O; concurrency strategy ConsistentConcurrency (the one the connection builder uses by default).",
-   ref="DESIGN.md §4 C12"),
+   ref="DESIGN.md Part II C01/C11/C12"),
  "C14": dict(
    text="LocalCids.tla (issuing, peer limit, retirement and replacement, two connections on one shared router with a complete routing snapshot after every call) and RemoteCids.tla (peer ids in any order with duplicates and retire-prior-to, paths applying / borrowing / releasing / being abandoned, RETIRE frames per call) are model-checked; every call sequence TLC enumerates to a fixed depth is executed on the real ArcLocalCids + QuicRouter and ArcRemoteCids and each recorded step is validated by TLC. One recorded finding (active-id count off by one in recv_new_cid_frame).",
    note="TLC, JSON trace I/O, the read-only router lookup hook.",
@@ -43,6 +55,8 @@ CLAIMED = {
 NOT_YET = "check under construction in this round (see DESIGN.md plan); not claimed yet"
 NA = {}
 
+REGISTER = json.load(open(os.path.join(ROOT, "tools", "register.json")))
+CLAIMED = {k: v for k, v in CLAIMED.items() if k in REGISTER}
 checks = []
 for pid in sorted(CLAIMED):
     c = CLAIMED[pid]
